@@ -26,11 +26,28 @@ ORDER = {
     "ddsketch/pb/": ["C09", "C19"],
 }
 
-def order_for(f):
+# the checks most likely to judge a function come first
+FUNC_FIRST = [
+    ("hangeMapping", ["C17", "C10", "C14"]), ("changeStoreMapping", ["C17"]), ("Rescale", ["C17", "C10"]),
+    ("Reweight", ["C16", "C11", "C13"]), ("Clear", ["C15"]), ("Copy", ["C14"]),
+    ("EncodeProto", ["C09"]), ("ToProto", ["C09"]), ("FromProto", ["C09", "C13"]), ("MergeWithProto", ["C09", "C04"]),
+    ("Decode", ["C06", "C07", "C08", "C15"]), ("decode", ["C06", "C07", "C08"]), ("Encode", ["C06", "C07"]),
+    ("MergeWith", ["C02", "C05", "C04"]), ("ForEach", ["C12", "C14"]), ("GetSum", ["C12"]), ("GetM", ["C12", "C10"]),
+    ("GetValue", ["C01", "C11", "C13"]), ("KeyAtRank", ["C04", "C01", "C11"]), ("Bins", ["C04"]),
+    ("Log", ["C05", "C01", "C12"]), ("NewD", ["C01", "C12", "C10"]),
+]
+
+def order_for(f, func=""):
+    base = ALL
     for k, v in ORDER.items():
         if f.startswith(k):
-            return v
-    return ALL
+            base = v
+            break
+    first = []
+    for pat, cs in FUNC_FIRST:
+        if pat in func:
+            first += [c for c in cs if c not in first]
+    return first + [c for c in base if c not in first]
 
 def sh(cmd, cwd=None, timeout=None, env=None):
     try:
@@ -80,7 +97,7 @@ def lane(k, q, args, lock, resf):
                 else:
                     res["status"] = "survived"
                     res["ran"] = []
-                    todo = list(m.get("checks") or order_for(m["file"]))
+                    todo = list(m.get("checks") or order_for(m["file"], m.get("func", "")))
                     # first pass one level shallower (cheap), second pass at the registered depth
                     for delta in (-1, 0):
                         for cid in todo:
